@@ -111,6 +111,15 @@ def make_scenario(rng, tier):
                                   "nth": rng.randint(1, 12), "fault": rng.choice(["raise", "raise", "disconnect"])})
     if rng.random() < 0.03:
         sc["remove"] = list(range(ns))        # no server at all
+    if rng.random() < 0.15:
+        # re-planning: all servers writable, the threshold needs every planned server, one spare server, and one
+        # allocate_buckets request of the first pass fails - the selector plans again and may put a share number on
+        # a second server (the case in which the unchanged uploader dies with an internal AssertionError)
+        n2 = rng.choice([3, 4, 4, 5])
+        k2 = rng.randint(1, n2 - 1)
+        sc.update(ns=n2 + rng.choice([1, 1, 2]), k=k2, n=n2, happy=n2, profile="replan", pre=None, remove=[],
+                  oneshot=[{"meth": "allocate_buckets", "nth": rng.randint(1, n2), "fault": rng.choice(["raise", "raise", "disconnect"])}])
+        sc["modes"] = ["writable"] * sc["ns"]
     return sc
 
 
